@@ -10,7 +10,7 @@ Per property:
   twins:  {verus obligation id: regex over kani harness names} -- harnesses that can supply a counterexample
 """
 
-HOOK_COMMITS = ['6809889b']
+HOOK_COMMITS = ['6809889b', '31b7601d', '37d4900d']
 
 PROPS = {
     'C18': {
@@ -107,9 +107,10 @@ PROPS['C11'] = {
     'verus': [],
     'kani': [
         ('geo', 'c11.rs', r'^c11_k_(classification_lat3|order_invariance)$', 'complete', 'quick'),
+        ('geo', 'c11_private.rs', r'^c11_k_nearest_endpoint', 'complete', 'quick'),
+        ('geo', 'c02.rs', r'^c02_k_line_line$', 'complete', 'quick'),
         ('geo', 'c11.rs', r'^c11_k_classification_lat5$', 'complete', 'thorough'),
         ('geo', 'c11.rs', r'^c11_k_proper_point_in_envelopes$', 'complete', 'thorough'),
-        ('geo', 'c02.rs', r'^c02_k_line_line$', 'complete', 'thorough'),
     ],
     'trusted': ['assumed contract of robust::orient2d (exact sign), stubbed by the shared oracle on the lattice',
                 'loop-free harnesses over the whole lattice |c| <= 3 (quick) / 5 (thorough) of integer-valued f64 coordinates: complete for that domain only'],
@@ -126,11 +127,26 @@ PROPS['C01'] = {
     'verus': [],
     'kani': [
         ('geo', 'c01.rs', r'^c01_k_', 'complete', 'quick'),
+        ('geo', 'geomgraph.rs', r'^c01_k_', 'complete', 'quick'),
     ],
-    'trusted': ['only the finite-state components are under contract: IntersectionMatrix cells / masks / setters / compute_disjoint, HasDimensions of the loop-free types'],
+    'trusted': ['only the finite-state components are under contract: IntersectionMatrix cells / masks / setters / compute_disjoint, HasDimensions of the loop-free types, TopologyPosition / Label algebra, Quadrant'],
     'undecided_clauses': [
         'the noded-graph construction (segment intersector, noding, edge-end star labelling) is NOT under contract: "the matrix equals the true matrix for all inputs" is not decided',
         'transposition and representation-independence of the whole pipeline',
+    ],
+}
+
+PROPS['C17'] = {
+    'title': 'PreparedGeometry answers exactly like the plain geometry',
+    'level': 'proof',
+    'verus': [],
+    'kani': [
+        ('geo', 'geomgraph.rs', r'^c17_k_', 'complete', 'quick'),
+    ],
+    'trusted': ['only the label-swap algebra that PreparedGeometry relies on when a cached graph is reused in the other argument position is under contract (finite domain, complete)'],
+    'undecided_clauses': [
+        'PlanarGraph / GeometryGraph::clone_for_arg_index deep-copy and frame across Rc<RefCell> (CBMC does not finish symbolic execution of the BTreeMap node map within 600 s even for one edge)',
+        'equivalence of the R-tree edge-set intersector with the all-pairs intersector; whole-pipeline equality of prepared and plain relate',
     ],
 }
 
